@@ -42,7 +42,8 @@ func TestProp(t *testing.T) {
 	)
 	r.RequireLabel("removal-raced-with-delivery-on-shared-trigger", "split-reached:"+subrig.PtUpdate, "split-reached:"+subrig.PtComplete,
 		"split-reached:"+subrig.PtError, "update-parked-while-subscriber-removed", "flush-failure-removes-subscriber", "nested-blocked:event",
-		"heartbeat-expected", "enum-cases")
+		"heartbeat-expected", "split-reached:"+subrig.PtHeartbeat, "split-reached:"+subrig.PtWHeartbeat,
+		"heartbeat-parked-while-subscriber-removed", "enum-cases")
 	r.Regress(dispatch())
 	r.RunProbes(probes())
 	if r.FirstShard() {
